@@ -1,4 +1,5 @@
 import GitSizer.Model.ScanProto
+import GitSizer.Gen.Flows
 import GitSizer.Gen.Cmds
 /-! # C10 — All-or-nothing reporting under faults
     Theorems about the protocol model of a run (`Model/ScanProto`): every invocation's status is
@@ -185,6 +186,33 @@ theorem scan_returns_once :
       [("graph.HistorySize(), nil", [])] ∧
     (Gen.Cmds.scanFlow.getLast?).map (fun e => e.1) = some "return" := by
   constructor <;> decide +kernel
+
+
+/-! ## `git config --get`: only exit status 1 means "not set", REGENERATED (git/gitconfig.go) -/
+
+def cfgFlow (name : String) : List Ev := ((Gen.Flows.gitconfig.find? (fun f => f.1 == name)).map (·.2)).getD []
+
+/-- the statements executed when the `git config --get` subprocess reported an error -/
+def onError (name : String) : List (String × String × Nat) :=
+  ((cfgFlow name).filter (fun e => e.2.2.any (fun c => c == ("i1", "t")))).map (fun e => (e.1, e.2.1, e.2.2.length))
+
+/-- **a failing `git config --get [--bool|--int]` is "not set" only when it is an exit with status 1**
+    (`Model/ScanProto.Inv.failing` for `configGet`): in all three readers the error branch is
+    `err, ok := err.(*exec.ExitError); if ok && err.ExitCode() == 1 { return default, nil }; return default, <error>`
+    — any other status (git rejects the value: 128), a signal, or a failure to start is an error
+    (seeded change C10w widened the test to "any ExitError") -/
+theorem config_get_exit1_only :
+    [onError "Repository.ConfigStringDefault", onError "Repository.ConfigBoolDefault", onError "Repository.ConfigIntDefault"].all
+      (fun l => l == [("assign-err", "err, ok := err.(*exec.ExitError)", 1), ("if", "ok && err.ExitCode() == 1", 2),
+                      ("return", "defaultValue, nil", 2),
+                      ("return-err", "defaultValue, fmt.Errorf(\"running 'git config': %w\", err)", 1)]) = true := by
+  decide +kernel
+
+/-- and a value that does not parse is an error, not the default -/
+theorem config_values_must_parse :
+    ((cfgFlow "Repository.ConfigBoolDefault" ++ cfgFlow "Repository.ConfigIntDefault").filter
+        (fun e => e.2.2.any (fun c => c == ("i3", "t")))).map (·.1) = ["return-err", "return-err"] := by
+  decide +kernel
 
 
 end GitSizer.C10
